@@ -96,12 +96,16 @@ def decodePunycodeHostname (puny : Str → Str) (h : Str) : Str :=
     let header := lower (part.take 4)
     if header = "xn--".toList then puny (header ++ part.drop 4) else part)
 
+/-- `item.split(sep, 1)` when `sep in item`, else `(item, None)` -/
+def cutFirst (sep : Char) : Str → Str × Option Str
+  | [] => ([], none)
+  | c :: cs =>
+    if c = sep then ([], some cs)
+    else ((c :: (cutFirst sep cs).1), (cutFirst sep cs).2)
+
 /-- `safe_qsl_iter(query)` -/
 def safeQslIter (q : Str) : List (Str × Option Str) :=
-  (splitOn q '&').map fun item =>
-    match splitFirst item '=' with
-    | (k, none) => (k, none)
-    | (k, some v) => (k, some v)
+  (splitOn q '&').map (cutFirst '=')
 
 /-- `safe_serialize_qsl(qsl)` -/
 def safeSerializeQsl (qsl : List (Str × Option Str)) : Str :=
